@@ -1,5 +1,5 @@
 (* C16 property theorems: statements + `exact lemma` only. *)
-From CJ Require Import Common.Base C16.Model C16.Concrete C16.ProofsRead C16.ProofsHb C16.ProofsHb2 C16.ProofsFc C16.ModelMw C16.ProofsMw C16.ProofsReg C16.ProofsMat.
+From CJ Require Import Common.Base C16.Model C16.Concrete C16.ProofsRead C16.ProofsHb C16.ProofsHb2 C16.ProofsFc C16.ModelMw C16.ProofsMw C16.ProofsMr C16.ProofsReg C16.ProofsMat.
 
 (* ------------------------------------------------------------------ *)
 (* (i) SCTPConn.Read                                                   *)
@@ -272,6 +272,35 @@ Theorem C16_mw_unlocked_variant_unbounded :
   forall B, exists ops, let st := mw_run VUnlocked mw_init ops in B < mbuf st /\ mforeign st = 0.
 Proof. exact mw_unlocked_unbounded. Qed.
 Print Assumptions C16_mw_unlocked_variant_unbounded.
+
+(* ------------------------------------------------------------------ *)
+(* (vii) any number of goroutines reading one SCTPConn: Read as Lock / *)
+(*       refill-or-bypass / hand-out / Unlock, every interleaving      *)
+(* ------------------------------------------------------------------ *)
+
+(* the completed Reads, in the order of their critical sections, returned exactly what the sequential model
+   (sctp_read) returns for their buffer sizes *)
+Theorem C16_mr_reads_serial :
+  forall mx eos script0 ops,
+    let st := mr_run mx eos (mr_init script0) ops in
+    exists R S, reads mx eos (map fst (mr_log st)) rinit script0 = (map snd (mr_log st), R, S).
+Proof. exact mr_reads_serial. Qed.
+Print Assumptions C16_mr_reads_serial.
+
+(* hence nothing is lost, duplicated or reordered across the readers, errors included *)
+Theorem C16_mr_reads_lossless :
+  forall mx eos script0 ops, fits mx script0 ->
+    let st := mr_run mx eos (mr_init script0) ops in
+    exists R S k, flat (map snd (mr_log st)) ++ pend R ++ flat S = flat script0 ++ repeat (EvE eos) k.
+Proof. exact mr_reads_lossless. Qed.
+Print Assumptions C16_mr_reads_lossless.
+
+Theorem C16_mr_mutual_exclusion :
+  forall mx eos script0 ops t1 t2,
+    let st := mr_run mx eos (mr_init script0) ops in
+    q_holds (mr_pcs st t1) = true -> q_holds (mr_pcs st t2) = true -> t1 = t2.
+Proof. exact mr_mutual_exclusion. Qed.
+Print Assumptions C16_mr_mutual_exclusion.
 
 (* ------------------------------------------------------------------ *)
 (* (iv) listener registry: any number of acceptor and connection       *)
